@@ -129,7 +129,17 @@ pub fn starts(thorough: bool, soil: u64) -> Vec<Start> {
             }
         }
     }
+    // working space above 1 MiB (thresholds of allocators and of plausible "free big buffers" optimisations)
+    for decoder in [false, true] {
+        for kind in [Kind::High, Kind::Low, Kind::Def] {
+            v.push(Start { eng: "nosimd", decoder, kind, cfg: (2, 1, 1 << 20), soil: 0 });
+        }
+    }
     v
+}
+
+pub fn is_big(st: &Start) -> bool {
+    st.cfg.2 >= 1 << 20
 }
 
 fn soil_opt(s: u64) -> Option<u64> {
@@ -172,7 +182,10 @@ pub fn run(ctx: &Ctx, rep: &mut Report) {
     let unmerged_depth = if ctx.thorough() { 4 } else { 3 };
     rep.bound("unmerged_depth", J::i(unmerged_depth));
     for (st, merge) in sts.iter().map(|s| (s, true)).chain(sts.iter().filter(|s| s.soil != 0 || !ctx.thorough()).map(|s| (s, false))) {
-        let depth = if merge { depth } else { unmerged_depth };
+        let depth = if is_big(st) { 2 } else if merge { depth } else { unmerged_depth };
+        if is_big(st) && !merge {
+            continue;
+        }
         // BFS
         let mut seen: HashSet<(Spec, Option<u64>)> = HashSet::new();
         let init = run_history(&m, st.eng, st.decoder, st.kind, st.cfg.0, st.cfg.1, st.cfg.2, soil_opt(st.soil), &[]);
